@@ -135,6 +135,27 @@ theorem rate_scale_invariant (grid : Steps2D ℝ) (c : Cx ℝ) (hc : c.toC ≠ 0
   have hcn : Complex.normSq c.toC ≠ 0 := fun h => hc (Complex.normSq_eq_zero.mp h)
   rw [hI, mul_div_mul_left _ _ hcn]
 
+/-- T1+T2+T5 combined: for any amplitude function sampled on a square grid with identical axes (non-zero
+spectrum) the setup-level visibility call returns a value in `[−1, 1]`, and every rate of the
+setup-level series lies in `[0, 1]`. -/
+theorem setup_level_mem_unit (J : ℝ → ℝ → Cx ℝ) (n : ℕ) (ax : Steps ℝ) (hn : ax.n = n)
+    (hN : 0 < jsiNorm (sampled J ⟨ax, ax⟩)) (δt : ℝ) :
+    (∃ v, homVisibilitySetup J ⟨ax, ax⟩ δt = .ok v ∧ -1 ≤ v ∧ v ≤ 1) ∧
+      ∀ τ, ∃ r, homRateSeriesSetup J ⟨ax, ax⟩ [τ] = .ok [r] ∧ 0 ≤ r ∧ r ≤ 1 := by
+  have hs : (sampled J ⟨ax, ax⟩).size = n * n := by
+    rw [size_sampled]; simp [Steps2D.len, hn]
+  constructor
+  · obtain ⟨r, hr, _, _, h3, h4⟩ :=
+      homRate_mem_unit n ⟨ax, ax⟩ hn hn (sampled J ⟨ax, ax⟩) hs hN δt
+    refine ⟨visibilityOf r, ?_, h3, h4⟩
+    simp only [homVisibilitySetup, homVisibility, exchanged_is_swapArr J n ax hn, hr, Outcome.map]
+  · intro τ
+    obtain ⟨r, hr, h1, h2, _, _⟩ :=
+      homRate_mem_unit n ⟨ax, ax⟩ hn hn (sampled J ⟨ax, ax⟩) hs hN τ
+    refine ⟨r, ?_, h1, h2⟩
+    rw [(setup_wrappers J ⟨ax, ax⟩ [τ] 0).1, exchanged_is_swapArr J n ax hn]
+    simp only [List.map_cons, List.map_nil, hr, collectOutcomes]
+
 /-! ### non-vacuity -/
 
 /-- a concrete non-symmetric 2×2 spectrum satisfying the hypotheses of `homRate_mem_unit` -/
